@@ -92,3 +92,24 @@ func (s *Struct) validate() error {
 	}
 	return nil
 }
+
+// contains returns true if the struct contains the target struct, directly or indirectly.
+func (s *Struct) contains(target *Struct, seen map[*Struct]struct{}) bool {
+	if _, ok := seen[s]; ok {
+		return false
+	}
+	seen[s] = struct{}{}
+
+	for _, field := range s.Fields.Values() {
+		t := field.Type
+		if t.Kind != KindStruct || t.Ref == nil || t.Ref.Struct == nil {
+			continue
+		}
+
+		next := t.Ref.Struct
+		if next == target || next.contains(target, seen) {
+			return true
+		}
+	}
+	return false
+}
